@@ -557,6 +557,15 @@ func (c *Ctx) checkCAS(r *Report, ro *Roles, rt *types.Named) {
 	})
 	writes := c.fileFieldWrites(fn)
 	if cas == nil {
+		// the rotation step may be split into helpers (claim the interval, open, install): follow the call chains from
+		// the appender's Write to every write of a file-holding field and collect the guards on the way
+		if ok, n, why := c.casGuardsChains(rt); ok {
+			r.OK(key, "%d call chain(s) from Write to a write of a file-holding field, each passing the true edge of a compare-and-swap on the interval marker (rotation split into helpers)", n)
+			return
+		} else if why != "" {
+			r.Fail(key, c.pos(fn.Pos()), "%s", why)
+			return
+		}
 		r.Fail(key, c.pos(fn.Pos()), "rotation step has no compare-and-swap on the interval marker: two writers crossing a boundary together would both rotate (double open, lost file handle)")
 		return
 	}
@@ -1620,7 +1629,9 @@ func checkC19(c *Ctx, r *Report) {
 			createErr = ex
 		}
 	})
-	if createErr == nil {
+	if cur == nil {
+		r.Undecided(key, c.pos(fn.Pos()), "cannot identify the field that holds the current file")
+	} else if createErr == nil {
 		r.Undecided(key, c.pos(fn.Pos()), "cannot identify the error result of the file creation in the rotation step")
 	} else {
 		bad := 0
@@ -1812,6 +1823,15 @@ func checkNoPanicHot(c *Ctx, r *Report, ro *Roles, rule string) {
 		eachInstr(f, func(in ssa.Instruction) {
 			switch x := in.(type) {
 			case *ssa.Panic:
+				// compiler-inserted guards of range-over-func loops
+				if strings.Contains(in.Block().Comment, "yield") || strings.HasPrefix(in.Block().Comment, "rangefunc") {
+					return
+				}
+				if mi, ok := x.X.(*ssa.MakeInterface); ok {
+					if k, ok := constString(mi.X); ok && (strings.Contains(k, "range function") || strings.Contains(k, "iteration")) {
+						return
+					}
+				}
 				// the SSA builder ends a blocking select with an unreachable panic of its own
 				if mi, ok := x.X.(*ssa.MakeInterface); ok {
 					if k, ok := constString(mi.X); ok && strings.HasPrefix(k, "blocking select matched no case") {
@@ -1867,4 +1887,93 @@ func osFileNilSafe(f *ssa.Function) bool {
 		}
 	}
 	return false
+}
+
+// casGuardsChains: every static call chain from the rolling appender's Write (through methods of the same type) to a
+// write of a file-holding field carries, at a call site or at the write itself, the true edge of a
+// sync/atomic CompareAndSwap on a field that is not a file holder (directly, or as the result of a predicate helper).
+func (c *Ctx) casGuardsChains(rt *types.Named) (ok bool, chains int, why string) {
+	write := c.declaredMethod(rt, "Write")
+	if write == nil {
+		return false, 0, ""
+	}
+	norm := func(gs []Guard) []Guard {
+		out := make([]Guard, 0, len(gs))
+		for _, g := range gs {
+			for {
+				u, isU := g.Cond.(*ssa.UnOp)
+				if !isU || u.Op != token.NOT {
+					break
+				}
+				g.Cond, g.Polarity = u.X, !g.Polarity
+			}
+			out = append(out, g)
+		}
+		return out
+	}
+	isCAS := func(g Guard) bool {
+		if !g.Polarity {
+			return false
+		}
+		call, isCall := g.Cond.(*ssa.Call)
+		if !isCall {
+			return false
+		}
+		pk, name := calleePkgName(call)
+		if pk != "sync/atomic" || !strings.HasPrefix(name, "CompareAndSwap") || len(call.Call.Args) == 0 {
+			return false
+		}
+		if fa, isFA := call.Call.Args[0].(*ssa.FieldAddr); isFA && isFileHolder(fieldOfAddr(fa).Type()) {
+			return false
+		}
+		return true
+	}
+	hasCAS := func(gs []Guard, fr *Frame) bool {
+		for _, g := range c.expandGuards(norm(gs), fr, 0) {
+			for _, h := range norm([]Guard{g}) {
+				if isCAS(h) {
+					return true
+				}
+			}
+		}
+		return false
+	}
+	bad := ""
+	seenWrite := false
+	var walk func(f *ssa.Function, fr *Frame, guarded bool, depth int, path []string)
+	walk = func(f *ssa.Function, fr *Frame, guarded bool, depth int, path []string) {
+		if depth > 5 || bad != "" {
+			return
+		}
+		for _, w := range c.fileFieldWrites(f) {
+			seenWrite = true
+			chains++
+			if !guarded && !hasCAS(guardsOfInstr(w.Instr), fr) {
+				bad = fmt.Sprintf("the write to %s at %s (reached through %s) is not control-dependent on a successful compare-and-swap of the interval marker: two writers crossing a boundary together would both rotate", w.Field.Name(), c.instrPos(w.Instr), strings.Join(path, "→"))
+				return
+			}
+		}
+		eachInstr(f, func(in ssa.Instruction) {
+			call, isCall := in.(*ssa.Call)
+			if !isCall {
+				return
+			}
+			g := call.Common().StaticCallee()
+			if g == nil || recvNamed(g) != rt || len(g.Blocks) == 0 || g == f {
+				return
+			}
+			for _, p := range path {
+				if p == fname(g) {
+					return
+				}
+			}
+			site := guarded || hasCAS(guardsOfInstr(in), fr)
+			walk(g, &Frame{Fn: g, Site: call, Parent: fr, Depth: depth + 1}, site, depth+1, append(append([]string{}, path...), fname(g)))
+		})
+	}
+	walk(write, &Frame{Fn: write}, false, 0, []string{fname(write)})
+	if bad != "" {
+		return false, chains, bad
+	}
+	return seenWrite, chains, ""
 }
